@@ -8,7 +8,7 @@ use crate::exec::registry;
 use crate::sched::{GenMode, SchedPlan};
 
 pub const CHUNK: u64 = 250;
-pub const MAX_STEPS: u64 = 5_000_000;
+pub const MAX_STEPS: u64 = 20_000_000;
 
 fn str_hash(s: &str) -> u64 { s.bytes().fold(0xcbf29ce484222325u64, |h, b| (h ^ b as u64).wrapping_mul(0x100000001b3)) }
 
